@@ -377,7 +377,7 @@ func (c *DefaultCtx) Body() []byte {
 func (c *DefaultCtx) ClearCookie(key ...string) {
 	if len(key) > 0 {
 		for i := range key {
-			c.fasthttp.Response.Header.DelClientCookie(key[i])
+			c.fasthttp.Response.Header.DelClientCookie(sanitizeHeaderValue(key[i]))
 		}
 		return
 	}
@@ -415,6 +415,10 @@ func (c *DefaultCtx) Cookie(cookie *Cookie) {
 	fcookie.SetKey(sanitizeHeaderValue(cookie.Name))
 	fcookie.SetValue(sanitizeHeaderValue(cookie.Value))
 	fcookie.SetPath(sanitizeHeaderValue(cookie.Path))
+	// fasthttp percent-decodes the path it is given: a line break must not come out of that either
+	for p := fcookie.Path(); bytes.IndexByte(p, '\r') >= 0 || bytes.IndexByte(p, '\n') >= 0; p = fcookie.Path() {
+		fcookie.SetPath(sanitizeHeaderValue(string(p)))
+	}
 	fcookie.SetDomain(sanitizeHeaderValue(cookie.Domain))
 	// only set max age and expiry when SessionOnly is false
 	// i.e. cookie supposed to last beyond browser session
